@@ -297,6 +297,10 @@ def run_e2e(case):
     except Exception as e:
         out['kd_err'] = err_kind(e)
     log = {'fees': [], 'packs': [], 'sel': []}
+    if case.get('selectors') == 'lf':                 # public configuration: builder.utxo_selectors
+        b.utxo_selectors = [LargestFirstSelector()]
+    elif case.get('selectors') == 'ri':
+        b.utxo_selectors = [RandomImproveMultiAsset()]
     instrument(b, log)
     # the default first selector (RandomImproveMultiAsset) draws from the module-level `random`: its state is part
     # of the scenario (field rseed), so that a reported input replays to the same selection
